@@ -635,14 +635,22 @@ fn kitty_image_id(img: &Image) -> u64 {
 /// In general this identification is just represents individual placement
 /// but in particular implementation it is bound to a physical position on
 /// the screen.
+///
+/// Placement id `0` means "not specified" in the protocol: a put with `p=0`
+/// creates an anonymous placement and a delete with `p=0` removes all placements
+/// of the image. Position index is shifted by one so the origin gets a real id,
+/// and wrapped to stay within [KITTY_MAX_ID].
 fn kitty_placement_id(pos: Position) -> u64 {
-    (pos.row as u64 % KITTY_MAX_DIM) + (pos.col as u64 % KITTY_MAX_DIM) * KITTY_MAX_DIM
+    let index = (pos.row as u64 % KITTY_MAX_DIM) + (pos.col as u64 % KITTY_MAX_DIM) * KITTY_MAX_DIM;
+    (index + 1) % (KITTY_MAX_ID + 1)
 }
 
+/// Inverse of the [kitty_placement_id]
 fn kitty_placement_to_pos(placement_id: u64) -> Position {
+    let index = (placement_id % (KITTY_MAX_ID + 1) + KITTY_MAX_ID) % (KITTY_MAX_ID + 1);
     Position {
-        col: (placement_id / KITTY_MAX_DIM) as usize,
-        row: (placement_id % KITTY_MAX_DIM) as usize,
+        col: (index / KITTY_MAX_DIM) as usize,
+        row: (index % KITTY_MAX_DIM) as usize,
     }
 }
 
